@@ -4,8 +4,8 @@
 //!
 //! What is trusted here: the `regex` crate (`is_match` per line; the six match bits sent to the
 //! model are computed by this harness with its own compiled regexes) and this file's line
-//! splitter (`split_lines`: split at LF, drop one trailing CR; the text after the last LF is a
-//! line, as with `str::split('\n')`).
+//! splitter (`split_lines`: one final LF dropped, split at LF, drop one trailing CR – tied to the
+//! model's `splitSrc` by the `fflines` op).
 use corrlib::*;
 use grcov::{CovResult, FileFilter, FilterType, Function};
 use regex::Regex;
@@ -168,7 +168,8 @@ fn render(ps: &PatSet, ls: &[LineSpec]) -> Vec<u8> {
     s.into_bytes()
 }
 
-/// the harness' own notion of "source line": bytes between LFs, one trailing CR removed
+/// the harness' own notion of "source line": exactly one final LF dropped, then the bytes between
+/// LFs, one trailing CR removed (since /repo f854858; the empty text still has one empty piece)
 fn split_lines(bytes: &[u8]) -> Vec<&[u8]> {
     fn strip_cr(b: &[u8]) -> &[u8] {
         if b.last() == Some(&b'\r') {
@@ -177,6 +178,7 @@ fn split_lines(bytes: &[u8]) -> Vec<&[u8]> {
             b
         }
     }
+    let bytes = if bytes.last() == Some(&b'\n') { &bytes[..bytes.len() - 1] } else { bytes };
     let mut v = vec![];
     let mut st = 0;
     for i in 0..bytes.len() {
@@ -337,8 +339,7 @@ fn judge(
     impl_branch: &dyn Fn(u32) -> bool,
 ) -> Verdict {
     let len = spec.line.len() - 1;
-    // `phantom` (the piece after a final newline) is judged like every other piece: the property
-    // as C16_phantom_line states it – an empty source line numbered one past the last real line
+    // `phantom` (the one piece of an empty text) is judged like every other piece (C16_empty_file)
     let _ = phantom;
     for k in keys {
         let n = k as usize;
@@ -387,17 +388,14 @@ fn judge(
     Verdict::Holds
 }
 
-/// The empty piece after the final LF (or the single empty piece of an empty file) is a "line"
-/// for `split('\n')` and for the model, but not a line of the source as every other reader counts
-/// them. `FileFilter::create` treats it as an EMPTY SOURCE LINE numbered one past the last real line
-/// (Props/C16.lean `C16_phantom_line`): a key with that number is removed iff a marker matches the
-/// empty string or a region is left open at the end of the text. The oracle says exactly that (the
-/// piece is part of `bs`, so `spec_of` already computes it); a change of the code there (e.g. to
-/// `str::lines`) is an oracle failure. Whether removing such a key is itself a defect is the
-/// finding candidate C16-line-after-final-newline (see `observe_line_after_final_newline`).
+/// Since /repo f854858 there is no piece after a final newline (Props/C16.lean `C16_phantom_line`,
+/// `C16_only_real_lines`): the pieces of every non-empty text are its lines, and the oracle – which
+/// judges every key 0..=pieces+2 – demands that key lines+1 is NOT removed. Only the empty text
+/// still has one empty piece without being a line (`C16_empty_file`): that piece is judged as an
+/// empty source line, as the theorem says.
 fn phantom_line(text: &[u8]) -> Option<u32> {
-    if text.is_empty() || text.last() == Some(&b'\n') {
-        Some(split_lines(text).len() as u32)
+    if text.is_empty() {
+        Some(1)
     } else {
         None
     }
@@ -847,7 +845,7 @@ fn evaluate(rep: &mut Report, ctx: &Ctx, cases: &[Case], tag: &str) {
             }
             if let Some(p) = phantom {
                 if spec.line[p as usize] || spec.branch[p as usize] {
-                    rep.count("scenario.empty_piece_after_final_newline_in_region_or_marked");
+                    rep.count("scenario.empty_file_piece_marked");
                 }
             }
             // the last real line, by the way the text ends
@@ -861,7 +859,7 @@ fn evaluate(rep: &mut Report, ctx: &Ctx, cases: &[Case], tag: &str) {
                 } else {
                     "none"
                 };
-                let last_real = if phantom.is_some() { n.saturating_sub(1) } else { n };
+                let last_real = if phantom.is_some() { 0 } else { n };
                 if last_real >= 1 {
                     let j = last_real - 1;
                     if (0..6).any(|k| eff(j, k)) {
@@ -997,30 +995,47 @@ fn src_tie(rep: &mut Report, cases: &[Case], create_obs: &[CreateObs], tag: &str
     }
 }
 
-/// Finding candidate C16-line-after-final-newline, run on the real code as an observation: the
-/// one-line source `// LCOV_EXCL_START\n` with only `--excl-start` removes the record's key 2.
-fn observe_line_after_final_newline(rep: &mut Report, ctx: &Ctx) {
-    let spec = vec![LineSpec { want: [false, true, false, false, false, false], filler: 0, eol: 0 }];
-    let mut cov = CovResult::default();
-    cov.lines.insert(1, 3);
-    cov.lines.insert(2, 5);
-    cov.branches.insert(2, vec![true, false]);
-    let c = text_case(opts_of(0b000010), 0, spec, cov, true, "witness");
-    let name = "after_final_newline.c".to_string();
-    place(&c, &ctx.src_dir.join(&name));
-    let created = observe_create(&ctx.re.filter(&c), &ctx.src_dir.join(&name)).text;
-    let out = rewrite_group(ctx, std::slice::from_ref(&c), &[0], &[name]);
-    let after = parse_cov(&out[0]);
-    let lines = std::str::from_utf8(&c.text).unwrap().lines().count();
-    if created == "L1,L2" && !after.lines.contains_key(&2) && after.branches.contains_key(&2) && lines == 1 {
-        rep.count("candidate.C16-line-after-final-newline.reproduced");
-        rep.notes.push(format!(
-            "finding candidate C16-line-after-final-newline (observation, not counted as a violation): source {:?} has 1 line; --excl-start LCOV_EXCL_START; FileFilter::create = {}; rewrite_paths drops the line count of key 2 ({} -> {}): file_filter.rs 57 splits with split('\\n'), whose last piece after a final newline is numbered n+1",
-            String::from_utf8_lossy(&c.text), created, show_cov(&c.cov), out[0]
-        ));
-    } else {
-        rep.count("candidate.C16-line-after-final-newline.not_reproduced");
-        rep.notes.push(format!("C16-line-after-final-newline no longer reproduces (create = {}, record = {}): C16_phantom_line and the model's splitLF must follow", created, out[0]));
+/// corpus/C16/*.json: minimised past failures, replayed first. `case` is a replay case of this
+/// harness; `expect_create` is what `FileFilter::create` must answer (the full oracle and the tie run
+/// on the case as on every other).
+fn corpus(rep: &mut Report, ctx: &Ctx) {
+    let mut files: Vec<PathBuf> = std::fs::read_dir("/verif/corpus/C16")
+        .map(|d| d.filter_map(|e| e.ok().map(|e| e.path())).filter(|p| p.extension().map(|x| x == "json").unwrap_or(false)).collect())
+        .unwrap_or_default();
+    files.sort();
+    let mut cases = vec![];
+    for p in &files {
+        let v: Value = match std::fs::read_to_string(p).ok().and_then(|t| serde_json::from_str(&t).ok()) {
+            Some(v) => v,
+            None => {
+                rep.notes.push(format!("corpus file {} is not JSON", p.display()));
+                continue;
+            }
+        };
+        let mut c = match case_from_json(&v["case"]) {
+            Some(c) => c,
+            None => {
+                rep.notes.push(format!("corpus file {} is not a C16 case", p.display()));
+                continue;
+            }
+        };
+        c.origin = "corpus";
+        rep.count("corpus.cases");
+        if let Some(want) = v["expect_create"].as_str() {
+            let got = create_text(ctx, &c);
+            if got != want {
+                rep.fail(
+                    "oracle",
+                    None,
+                    format!("corpus case {}: FileFilter::create = {}, recorded {} ({})", p.display(), got, want, v["origin"].as_str().unwrap_or("")),
+                    case_json(&c),
+                );
+            }
+        }
+        cases.push(c);
+    }
+    if !cases.is_empty() {
+        evaluate(rep, ctx, &cases, "corpus");
     }
 }
 
@@ -1487,8 +1502,8 @@ pub fn run(rep: &mut Report) {
     let mut rng = Rng::new(rep.seed ^ 0xC16);
 
     // ---- witnesses / corpus first --------------------------------------------------------------
+    corpus(rep, &ctx);
     evaluate(rep, &ctx, &witnesses(), "wit");
-    observe_line_after_final_newline(rep, &ctx);
 
     // ---- exhaustive small texts ----------------------------------------------------------------
     {
